@@ -59,13 +59,30 @@ class OpGen:
         self.mixins = mixins or []  # available (module, class) pairs for @mixin
         self.vars: List[Tuple[str, str, Optional[str]]] = []  # (name, type, default) of the op being built
         self.in_fragment = False
+        self.used_aliases: set = set()
+        self.used_vars: set = set()
 
     # ------------------------------------------------------------------ helpers
     def uid(self) -> int:
         self.n += 1
         return self.n
 
+    def dirty_name(self, scope_used: set) -> Optional[str]:
+        from .schema import Names
+        for cls_name, pool in Names.DIRTY_POOLS.items():
+            if cls_name in self.dirty and self.rng.random() < 0.3:
+                free = [p for p in pool if p not in scope_used]
+                if free:
+                    self.feats.add(cls_name + ".op")
+                    name = self.rng.choice(free)
+                    scope_used.add(name)
+                    return name
+        return None
+
     def alias(self) -> str:
+        d = self.dirty_name(self.used_aliases)
+        if d:
+            return d
         n = self.uid()
         style = self.rng.randrange(4)
         if style == 0:
@@ -77,6 +94,9 @@ class OpGen:
         return "AliasURL%d" % n
 
     def var_name(self) -> str:
+        d = self.dirty_name(self.used_vars)
+        if d:
+            return d
         n = self.uid()
         style = self.rng.randrange(4)
         if style == 0:
@@ -331,6 +351,7 @@ class OpGen:
         if root is None:
             return None
         self.vars = []
+        self.used_vars = set()
         names = list(root.fields)
         if kind == "subscription":
             chosen = [self.rng.choice(names)]
